@@ -85,6 +85,14 @@ def do_case(ctx, inp):
         return
     dim, method, axis, m = inp["dim"], inp["method"], inp.get("axis"), inp["m"]
     arr = pnd.integer_ndarray(np.array(m, dtype=np.int64))
+    if inp.get("layout") == "T" and dim == 2:
+        # the same logical array held in another memory layout (the transpose of a row-major array; what `.T`, a column
+        # slice of a larger table or numpy.asfortranarray hand over): nothing documented depends on strides
+        arr = pnd.integer_ndarray(np.array(m, dtype=np.int64).T.copy()).T
+    elif inp.get("layout") == "S" and dim == 2:
+        big = np.zeros((len(m) * 2, len(m[0]) * 2), dtype=np.int64)
+        big[::2, ::2] = np.array(m, dtype=np.int64)
+        arr = pnd.integer_ndarray(big)[::2, ::2]
     # earlier compressions of the very same array object (a caller computing several weightings of one priority array):
     # the judged call below must still answer for the array as the caller wrote it
     for pm, pa in inp.get("pre", []):
@@ -194,6 +202,10 @@ def run(ctx):
                 case["pre"] = [[rng.choice(METHODS), rng.choice([0, 1])] for _ in range(rng.randint(1, 2))]
             elif rng.random() < 0.15:
                 case["flat"] = True; case.pop("axis")
+            if rng.random() < 0.2:
+                case["layout"] = rng.choice(["T", "T", "S"]); ctx.tags["other-memory-layout"] += 1
+                if rng.random() < 0.5 and "axis" in case and not case.get("pre"):
+                    case["flat"] = True; case.pop("axis")
             do_case(ctx, case)
         else:
             if method in ("min", "max"): method = "shadow"
